@@ -164,6 +164,7 @@ def run_case(case, ctx):
             except Exception as exc:  # pylint: disable=broad-except
                 got, raised = None, exc
             ctx.count("reads")
+            ctx.evaluated()
             ctx.label("iface=" + iface, "opts=" + "+".join(kinds or ["none"]))
             if sel is None:
                 if raised is None:
